@@ -979,6 +979,22 @@ def gen_comm(repo):
     o.d("ackTimeoutStart", "Nat", lambda: get_timeout("stream_start", "_get_ack"))
     o.d("ackTimeoutStop", "Nat", lambda: get_timeout("stream_stop", "_get_ack"))
 
+    def stream_data_timeout():
+        """`stream_data()` calls `_get_stream_frame()` without an argument: the wait is that method's default"""
+        f = find_func(C, "_get_stream_frame")
+        a = f.args
+        names = [x.arg for x in a.args]
+        if "timeout" not in names or not a.defaults:
+            raise Missing("_get_stream_frame: `timeout` parameter with a default")
+        d = a.defaults[len(a.defaults) - (len(names) - names.index("timeout"))]
+        if not isinstance(d, ast.Constant):
+            raise Missing("_get_stream_frame: literal default timeout")
+        sd = unparse(find_func(C, "stream_data"))
+        if "self._get_stream_frame()" not in sd:
+            raise Missing("stream_data: polls with the default timeout")
+        return str(tenths(d.value))
+    o.d("streamDataTimeout", "Nat", stream_data_timeout, "the stream thread's poll of the stream queue (tenths of a second)")
+
     def drain():
         f = find_func(C, "_drop_all_frames")
         s_ = unparse(f)
